@@ -124,7 +124,19 @@ class ByteInterval(Node):
     address = _IndexedAttribute[typing.Optional[int]]()(
         lambda self: self.section
     )
-    size = _IndexedAttribute[int]()(lambda self: self.section)
+    _indexed_size = _IndexedAttribute[int]()(lambda self: self.section)
+
+    @property
+    def size(self) -> int:
+        return self._indexed_size
+
+    @size.setter
+    def size(self, value: int) -> None:
+        self._indexed_size = value
+        # The contents may never be longer than the interval: shrinking the
+        # interval below the number of stored bytes truncates them.
+        if len(self.contents) > value:
+            del self.contents[value:]
 
     def __init__(
         self,
@@ -163,8 +175,8 @@ class ByteInterval(Node):
         super().__init__(uuid=uuid)
         self._section: typing.Optional["Section"] = None
         self.address = address
-        self.size = size
         self.contents = bytearray(contents)
+        self.size = size
         self.initialized_size = initialized_size
 
         # Both blocks and _interval_tree must exist before adding any blocks.
